@@ -386,7 +386,7 @@ func (r *Run) triage(unmatched []*failRec) {
 			c := m[k]
 			cell := map[string][]string{}
 			for fk, vals := range c.feats {
-				if len(vals) > 40 {
+				if len(vals) > 400 {
 					continue
 				}
 				for v := range vals {
